@@ -215,6 +215,7 @@ package redisemu
 //@ prop C19
 // (partial contract: the constructor runs before the set is shared with any other goroutine, so its lock and guard obligations are not examined)
 //@ only C19
+//@ mutexes unknown
 //@ safetyprop none
 //@ modifies *
 //@ assertbefore "dsc := dss.dbs[n].newDataStoreCommand()" [C19] index.strict: parseErr == nil && int64(n) == n64
